@@ -204,6 +204,24 @@ def str_method(x, st, recv, name, pos, kw, node, chain):
     if name in ("zfill", "ljust", "rjust", "center", "expandtabs", "translate", "format_map"):
         return [(st, fresh("str", name))]
     if name == "partition" or name == "rpartition":
+        if len(pos) == 1 and pos[0].k == "str":
+            sep = pos[0].t
+            a, b = fresh("str", "part_a"), fresh("str", "part_b")
+            found = z3.Contains(s, sep)
+            st_y, st_n = st.fork(found), st.fork(z3.Not(found))
+            st_y.pc.append(s == z3.Concat(a.t, sep, b.t))
+            # the separator occurrence chosen is the first (partition) / the last (rpartition) one
+            st_y.pc.append(z3.Not(z3.Contains(z3.Concat(a.t, z3.SubString(sep, 0, z3.Length(sep) - 1)), sep))
+                           if name == "partition" else
+                           z3.Not(z3.Contains(z3.Concat(z3.SubString(sep, 1, z3.Length(sep) - 1), b.t), sep)))
+            empty = vstr("")
+            miss = (V("tuple", (vstr(s), empty, empty)) if name == "partition" else V("tuple", (empty, empty, vstr(s))))
+            outs = [(st_y, V("tuple", (a, vstr(sep), b))), (st_n, miss)]
+            if x.mode == "value":
+                # an empty separator raises ValueError
+                return [o for o in outs] if z3.is_string_value(sep) and sep.as_string() != "" else \
+                    x.check_v(st, z3.Length(sep) > 0, "ValueError", node, lambda s2: outs)
+            return outs
         return [(st, V("tuple", (fresh("str"), fresh("str"), fresh("str"))))]
     if x.mode == "frame":
         return [(st, vopq("str." + name))]
